@@ -113,6 +113,15 @@ func c12Bases() []c12Base {
 					&gen.SrcAllot{Items: []*gen.SrcAllotItem{{A: gen.Port("1/2"), From: sa("b")}, {A: &gen.Remaining{}, From: sa("a")}}}),
 				da("x"))}}
 		}, nil, map[string]string{}},
+		{"ordered-dest-caps", func() *gen.Program {
+			// the first clause takes everything: the later ones receive nothing but are still evaluated
+			return &gen.Program{Vars: []*gen.VarDecl{decl("monetary", "cap"), decl("account", "dst")}, Stmts: []gen.Stmt{sendN(U, "3", sa("world"),
+				&gen.DstInorder{Clauses: []*gen.DstClause{
+					{Cap: gen.Mon(U, "5"), To: &gen.To{D: da("x")}},
+					{Cap: v("cap"), To: &gen.To{D: &gen.DstAllot{Items: []*gen.DstAllotItem{{A: gen.Port("1/2"), To: &gen.To{D: da("y")}}, {A: &gen.Remaining{}, To: &gen.To{D: &gen.DstAccount{E: v("dst")}}}}}}},
+					{Cap: gen.Mon(U, "1"), To: &gen.Kept{}}},
+					Remaining: &gen.To{D: da("a")}})}}
+		}, nil, map[string]string{"cap": "USD 2", "dst": "z"}},
 		{"infix-sub", func() *gen.Program {
 			return &gen.Program{Vars: []*gen.VarDecl{decl("monetary", "amt")},
 				Stmts: []gen.Stmt{&gen.Send{Sent: &gen.SentLit{E: &gen.Infix{Op: "-", L: v("amt"), R: gen.Mon(U, "1")}},
